@@ -154,11 +154,13 @@ func c07RunMode(run *vfRun, c c07Case, mode string) {
 		tRound uint64
 		poly   *share.PubPoly
 		thr    int
+		idxOf  map[int]int // node position -> its index in THIS group (the harness moves n.index at the announcement)
 	}
 	var govMu sync.Mutex
 	var gov []c07Gov
 	backed := map[[2]uint64]map[int]bool{} // (node, round) -> signer indices valid under the governing polynomial
 	seenPartials := map[[2]uint64][]string{} // (node, round) -> what was handed over / emitted, for the report
+	putAt := map[[2]uint64]int64{}           // (node, round) -> the node's clock when that round reached its base store
 	governing := func(r uint64) *c07Gov {
 		var g *c07Gov
 		for i := range gov {
@@ -204,16 +206,31 @@ func c07RunMode(run *vfRun, c c07Case, mode string) {
 		nt.onPut = func(n *vfbNode, b *common.Beacon, src string, seq int64) {
 			atomic.AddInt64(&puts, 1)
 			orc.onPut(n, b, src, seq)
+			nowN := n.clk.Now().Unix()
+			govMu.Lock()
+			if _, seen := putAt[[2]uint64{uint64(n.pos), b.Round}]; !seen {
+				putAt[[2]uint64{uint64(n.pos), b.Round}] = nowN
+			}
+			prevAt, prevSeen := putAt[[2]uint64{uint64(n.pos), b.Round - 1}]
+			govMu.Unlock()
 			if src != "agg" {
 				return
 			}
 			govMu.Lock()
 			g := governing(b.Round)
+			if g == nil {
+				govMu.Unlock()
+				return
+			}
 			// the node's own partial goes to its aggregator before anything is sent, so it cannot be observed in time:
 			// it is granted, and a threshold minus one is asked of the OTHER members' partials handed to the node
 			have := 1
+			own, member := g.idxOf[n.pos]
+			if !member {
+				own = -1
+			}
 			for idx := range backed[[2]uint64{uint64(n.pos), b.Round}] {
-				if idx != n.index {
+				if idx != own {
 					have++
 				}
 			}
@@ -223,6 +240,15 @@ func c07RunMode(run *vfRun, c c07Case, mode string) {
 				return
 			}
 			run.Count("aggregations_at_or_after_a_transition_counted", 1)
+			if have < g.thr && b.Round == g.tRound && prevSeen && prevAt == nowN && n.handler != nil &&
+				n.handler.crypto.GetGroup().TransitionTime != common.TimeOfRound(nt.cfg.Period, nt.genesis, g.tRound) {
+				// the vault is switched by a store callback that runs, in its own goroutine, after the round before the
+				// transition has been stored; a node that is catching up signs and aggregates the transition round in the
+				// very same clock step, and nothing orders the two
+				run.Violation("C07/transition-round-aggregated-with-previous-shares/in-the-step-that-stored-the-round-before",
+					fmt.Sprintf("node %d stored round %d and aggregated the transition round %d within one second of its clock (%d) with its vault not switched yet: it held at most %d partial(s) valid under the new group's polynomial, threshold %d; partials seen: %v", n.pos, b.Round-1, b.Round, nowN, have, g.thr, seen), info)
+				return
+			}
 			if have < g.thr {
 				run.Violation(fmt.Sprintf("C07/beacon-after-transition-without-threshold-of-new-group-partials/%s", c.Shape),
 					fmt.Sprintf("node %d aggregated round %d (transition round %d) while it held at most %d partial(s) valid under the new group's polynomial (its own granted), threshold %d; partials of that round seen at the node: %v", n.pos, b.Round, g.tRound, have, g.thr, seen), info)
@@ -330,8 +356,12 @@ func c07RunMode(run *vfRun, c c07Case, mode string) {
 		if lead == 1 {
 			eff = tRound + 1
 		}
+		idxOf := map[int]int{}
+		for _, pos := range next.members {
+			idxOf[pos] = int(next.group.Find(nt.nodes[pos].pair.Public).Index)
+		}
 		govMu.Lock()
-		gov = append(gov, c07Gov{tRound: eff, poly: next.group.PublicKey.PubPoly(sch), thr: next.group.Threshold})
+		gov = append(gov, c07Gov{tRound: eff, poly: next.group.PublicKey.PubPoly(sch), thr: next.group.Threshold, idxOf: idxOf})
 		govMu.Unlock()
 		inNext := map[int]bool{}
 		for _, p := range next.members {
@@ -387,9 +417,32 @@ func c07RunMode(run *vfRun, c c07Case, mode string) {
 			nt.StopNode(downNode)
 			run.Count("remainer_outages", 1)
 		}
-		// run across the transition
+		// run across the transition. The vault is switched by a store callback that runs in its own goroutine once
+		// round tRound-1 is stored; in real time a whole period lies between that and the tick of tRound, on the fake
+		// clock only the few milliseconds until the harness's next step: wait (bounded) for the callback to have run on
+		// every node that has stored tRound-1 before moving the clocks on, so that the compression of time does not
+		// create an interleaving a real network cannot have. (A node that is catching up stores tRound-1 and signs
+		// tRound in the same instant in real time too: that case is left alone and judged.)
+		waitSwitch := func() {
+			for i := 0; i < 400; i++ {
+				waiting := false
+				for _, pos := range next.members {
+					n := nt.nodes[pos]
+					if n.running && n.handler != nil && inCur[pos] && nt.Head(n) >= tRound-1 && nt.Head(n) < tRound &&
+						n.handler.crypto.GetGroup().TransitionTime != next.group.TransitionTime {
+						waiting = true
+					}
+				}
+				if !waiting {
+					return
+				}
+				time.Sleep(5 * time.Millisecond)
+			}
+			run.Count("steps_that_waited_2s_for_a_switch_callback", 1)
+		}
 		for nt.clockRound(nt.nodes[next.members[0]]) < tRound+2 {
 			step()
+			waitSwitch()
 		}
 		if downNode != nil {
 			// it restarts with what core persisted for it: the new group and share
